@@ -760,3 +760,6 @@ package zerolog
 // C06: which Write methods are event destinations (see /verif/govc/sweep_ownership.go)
 //@ effect noretain skip /hlog/internal/mutil x : the response-writer proxies carry HTTP bodies, not events
 //@ effect noretain skip /pkgerrors x : state.Write is the fmt.State of the stack-trace formatter, not an event destination
+
+// C02: Fields encodes a []byte value as Event.Bytes does (documented in the README table of field types).
+//@ effect agreement field []byte Bytes
